@@ -24,7 +24,7 @@ func (config *autoUnseal) applyDefaults() {
 
 func (state *RuntimeState) readyzHandler(w http.ResponseWriter,
 	r *http.Request) {
-	if state.Signer == nil {
+	if !state.isUnsealed() {
 		w.WriteHeader(http.StatusServiceUnavailable)
 		fmt.Fprintf(w, "not ready\n")
 	} else {
